@@ -45,6 +45,9 @@ var (
 func (s Scaler) remapMinMax(min, max int64) (float64, float64) {
 	if max <= min {
 		max = min + 1
+		if max < min { // min == MaxInt64: min+1 wrapped around
+			min, max = min-1, min
+		}
 	}
 	return math.Floor(s.mapVal(float64(min))), math.Ceil(s.mapVal(float64(max)))
 }
